@@ -437,7 +437,19 @@ impl<P: Property> Batch<P> {
                         }
                         let end = (start + chunk).min(total);
                         for index in start..end {
-                            let s = me.scenario(index);
+                            // generating a scenario consults the library for reference encodings; a panic there must not
+                            // silently kill this worker (the batch would finish short and look clean)
+                            QUIET.with(|q| q.set(true));
+                            let generated = catch_unwind(AssertUnwindSafe(|| me.scenario(index)));
+                            QUIET.with(|q| q.set(false));
+                            let s = match generated {
+                                Ok(s) => s,
+                                Err(_) => {
+                                    let msg = LAST_PANIC.with(|p| p.borrow().clone());
+                                    eprintln!("HARNESS-ERROR scenario {index} of {} could not be generated: {msg}", P::ID);
+                                    std::process::exit(2);
+                                }
+                            };
                             watch.slots[w].store(index + 1, Ordering::Release);
                             let mut obs = Obs::new();
                             let t_run = std::time::Instant::now();
@@ -524,7 +536,12 @@ pub fn minimise<S: Scenario>(s: &S, v: &Violation, budget: u32) -> Minimised<S> 
     let mut curv = v.clone();
     let mut execs = 0u32;
     'outer: loop {
-        for cand in cur.shrink() {
+        // `shrink` may call into the library (reference encodings): on a tree where that panics, stop minimising instead
+        // of taking the harness down
+        QUIET.with(|q| q.set(true));
+        let cands = catch_unwind(AssertUnwindSafe(|| cur.shrink())).unwrap_or_default();
+        QUIET.with(|q| q.set(false));
+        for cand in cands {
             if execs >= budget {
                 break 'outer;
             }
